@@ -55,6 +55,7 @@ def nonlinear_models(tier):
                 'dimer': [ma([A, A], [B], k), ma([B], [A, A], 0.5)],
                 'third_order': [ma([A, A, B], [C], 0.2 * k), ma([], [A], 1.0)],
                 'third_order_rep': [ma([A, B, B], [C, C], 0.2 * k), ma([], [B], 0.8)],
+                'third_order_interleaved': [ma([A, B, A], [C], 0.2 * k), ma([B, A, B], [C, C], 0.1 * k), ma([], [A], 1.0), ma([], [B], 0.8)],
                 'fourth_order': [ma([A, A, B, C], [B], 0.05 * k), ma([], [A], 1.0), ma([], [C], 0.5)],
                 'hillpos': [hill('hillpositive', [], [B], k, 2.0, 2.0, A), ma([], [A], 1.0)],
                 'hillneg': [hill('hillnegative', [], [A], k, 1.5, 2.5, B), ma([A], [B], 0.8)],
@@ -144,6 +145,16 @@ def check(c, item):
     outs['DeterministicSimulator/re-prepared'] = np.asarray(res4.py_get_result())[:, perm]
     res5 = py_simulate_model(times, Interface=iface, stochastic=False, return_dataframe=False)
     outs['py_simulate_model/kept-interface'] = np.asarray(res5.py_get_result())[:, perm]
+    if not via_edits:
+        # a second, independent model of the same definition with the species declared in another order (same names, same rate strings)
+        sp_r = dict(sp, species=list(reversed(sp['species'])))
+        try:
+            m_r = to_model(sp_r)
+            order_r = m_r.get_species_list()
+            res6 = py_simulate_model(times, Model=m_r, stochastic=False, return_dataframe=False)
+            outs['py_simulate_model/species-declared-in-reverse'] = np.asarray(res6.py_get_result())[:, [order_r.index(s_) for s_ in sp['species']]]
+        except Exception as e:
+            c.violation('C04/%s/build-exception' % sp['name'], 'the same model with its species declared in reverse order was rejected: %r' % e, case)
     for route, out in outs.items():
         c.count('evaluations'); c.count('traces'); c.count('transitions', len(times))
         key = 'C04/%s%s/%s/' % (sp['name'], '-edited' if via_edits else '', route)
@@ -285,7 +296,7 @@ def run(ctx):
                 'the bounds), reference = augmented matrix exponential; (b) 13 non-linear families (bimolecular, dimer, third and fourth order '
                 'with repeats, four Hill families, rational, explicitly time-dependent, delayed non-linear) x rates x initial states, '
                 'reference = DOP853 at rtol 1e-12 on the reference right-hand side; (c) uniform, geometric (with a repeated tiny gap) and '
-                'two-point grids from 0. Both entry points, plus a second run / a re-prepared run / an entry-point run on the same interface object, and a parameter sweep (Model.set_params) on one kept Model and interface; (d) a linear network under a user-set maximum step size (setter and keyword) across gaps that need 300..80000 (thorough 300000) internal steps, with the default step ceiling and with user-set ceilings above the need; (e) user-set tolerances (setter and keywords) that differ from each other on states of magnitude 1e-6..1e3, error within 200 (atol + rtol |x|). Oracle: first row is the initial condition exactly; every row within '
+                'two-point grids from 0. Both entry points, a second independent model with the species declared in reverse order, plus a second run / a re-prepared run / an entry-point run on the same interface object, and a parameter sweep (Model.set_params) on one kept Model and interface; (d) a linear network under a user-set maximum step size (setter and keyword) across gaps that need 300..80000 (thorough 300000) internal steps, with the default step ceiling and with user-set ceilings above the need; (e) user-set tolerances (setter and keywords) that differ from each other on states of magnitude 1e-6..1e3, error within 200 (atol + rtol |x|). Oracle: first row is the initial condition exactly; every row within '
                 '1e-5*(1+|x|). states = (model, grid) runs.')
     ctx.assumptions = ['finite family of well-posed non-stiff models; continuous parameter domains are represented by the alphabets only',
                        'odeint runs at atol=rtol=1.49e-8, the band is >100x that']
